@@ -824,7 +824,7 @@ func bigSets(r *ev.Run) {
 // Add/Remove/Has result compared with a map model, Len/Slice/Range every 97 calls, and the set
 // algebra against a second set every 1999 calls.
 func churnSets(r *ev.Run) {
-	n := ev.Pick(r, 60000, 600000)
+	n := ev.Pick(r, 140000, 600000)
 	for _, k := range []kind{kMaps, kSync} {
 		s := newSet(k)
 		model := map[int]bool{}
